@@ -2,7 +2,7 @@ SPECIFICATION Spec
 CONSTANTS
   RepAll = TRUE
   Mode = "mc"
-  MaxNodes = 8
+  MaxNodes = 6
   Enabled = {"Module", "Head", "Param", "TyPrim", "TyNamed", "TyPtr", "TyView", "TyArray", "TyArrayC", "TySlice", "TyEndless", "TyArraylike"}
   FlagSets <- FlagSets_none
   VarForms <- VarForms_init
